@@ -70,6 +70,17 @@ func genCfg(r *vs.Rand, allowRolling bool) scfg {
 		cfg.Children = append(cfg.Children, c)
 	}
 	cfg.GenerateSelector = r.Chance(25)
+	rollingCfgd := false
+	for _, c := range cfg.Children {
+		if c.Method == "RollingRecreate" || c.Method == "RollingInPlace" {
+			rollingCfgd = true
+		}
+	}
+	if rollingCfgd && r.Chance(35) {
+		// custom revision-history field paths; spec.extra / spec.config are optional fields of the parent,
+		// so an earlier path may be unset in an old revision
+		cfg.FieldPaths = [][]string{{"spec.image"}, {"spec.extra", "spec.image"}, {"spec.config", "spec.image"}, {"spec.image", "spec.config"}, {"spec.image", "spec.hookMode"}}[r.Intn(5)]
+	}
 	if r.Chance(25) {
 		cfg.ParentSelector = vs.M{"matchLabels": vs.M{"managed": "yes"}}
 	}
@@ -169,7 +180,7 @@ func scriptedHook(cfg scfg) func(name string, req map[string]interface{}) vs.Hoo
 				}
 			}
 		}
-		if !finalizing || mode == "finalize-keeps" {
+		if !finalizing || mode == "finalize-keeps" || mode == "finalize-latest" {
 			n := int(objInt(parent, "spec", "replicas"))
 			for i := 0; i < n && len(cfg.Children) > 0; i++ {
 				c := cfg.Children[0]
@@ -254,6 +265,8 @@ type scenario struct {
 	revNameBefore string
 	memoBefore    []interface{}
 	custBefore    interface{}
+	// the fair environment leaves observedGeneration one behind this round
+	lag bool
 }
 
 func ownerRef(parent map[string]interface{}, controller bool) vs.M {
@@ -456,7 +469,19 @@ func buildScenario(r *vs.Rand, cfg scfg) *scenario {
 					if _, ok := spec["childLabels"]; !ok {
 						delete(la["metadata"].(vs.M), "labels")
 					}
-					w.sim.Put(c.group(), c.Resource, withLA(mk(name, lbl, ownerRef(stored, true), image), la))
+					o := withLA(mk(name, lbl, ownerRef(stored, true), image), la)
+					if c.HasStatus && r.Chance(60) {
+						// a child controller reports status; sometimes it has not observed the latest generation yet,
+						// sometimes its condition is not (yet) the one the status checks want
+						gen := int64(1 + r.Intn(3))
+						og := gen
+						if r.Chance(35) {
+							og = gen - 1
+						}
+						o["metadata"].(vs.M)["generation"] = gen
+						o["status"] = vs.M{"ready": true, "observedGeneration": og, "conditions": []interface{}{vs.M{"type": "Ready", "status": r.Pick([]string{"True", "True", "False"})}}}
+					}
+					w.sim.Put(c.group(), c.Resource, o)
 				case 3: // owned, stale image
 					la := mk(name, childLabels, nil, "v0")
 					delete(la["metadata"].(vs.M), "namespace")
